@@ -432,7 +432,8 @@ class TypeTransformer:
         if self.no_data_loss:
             if not data.is_finite():
                 raise TypeError
-            if data.as_tuple().exponent:
+            if data != data.to_integral_value():
+                # only a fractional part is a loss: Decimal('1E+2') and '1.0' are integral
                 raise TypeError
 
         return t(data)
